@@ -61,8 +61,11 @@ class FakeKernelSocket(real_socket.socket):
 
     def bind(self, addr):
         interface, rxid, txid = addr
-        self.k_bound = (rxid, txid)
         self.calls.append('bind:%d:%d' % (rxid, txid))
+        if getattr(self, 'fail_next_bind', False):
+            self.fail_next_bind = False
+            raise OSError(19, 'No such device')
+        self.k_bound = (rxid, txid)
 
     def close(self):
         self.k_closed = True
@@ -147,20 +150,49 @@ class SockRunner:
     def do_get_ll_opts(self, op):
         self._call('get_ll_opts', {}, ('mtu', 'tx_dl', 'tx_flags'))
 
-    def do_bind(self, op):
+    def do_bind(self, op, fail=False):
         a = op['addr']
-        line = 'sock bind ' + ' '.join(all_addr_tokens(a))
+        line = 'sock %s ' % ('bindfail' if fail else 'bind') + ' '.join(all_addr_tokens(a))
+        self.py_view = None
         try:
             address = make_address(a)
         except Exception as e:
             self.line(line, 'addr-exc %s' % type(e).__name__)
             return
+        if fail and self.k is not None:
+            self.k.fail_next_bind = True
         try:
             self.s.bind('vcan0', address)
             res = 'ok'
         except Exception as e:
             res = 'exc %s' % type(e).__name__
+        if self.k is not None:
+            self.k.fail_next_bind = False
         self.line(line, res)
+        if res == 'ok':
+            # what the REAL Address object (the one a pure-Python layer would use) emits and accepts, on probe frames around the bound ids
+            try:
+                import isotp
+                pre = address.get_tx_payload_prefix()
+                view = {'tx_id': address.get_tx_arbitration_id(), 'tx_ext': bool(address.is_tx_29bits()), 'prefix': bytes(pre or b''),
+                        'probes': []}
+                rxid = address.get_rx_arbitration_id()
+                ext = bool(address.is_rx_29bits())
+                rpre = address.get_rx_extension_byte() if address.requires_rx_extension_byte() else None
+                body = bytes([2, 1, 2])
+                ids = [rxid] + [rxid ^ (1 << b) for b in ((0, 3, 8, 11, 15, 16, 17, 24, 28) if ext else (0, 3, 8, 10))]
+                for pid in ids:
+                    for pext in (ext, not ext):
+                        for pb in ([rpre, rpre ^ 1, rpre ^ 0x80] if rpre is not None else [None]):
+                            data = (bytes([pb]) if pb is not None else b'') + body
+                            m = isotp.CanMessage(arbitration_id=pid, data=data, extended_id=pext)
+                            view['probes'].append((pid, pext, data[0], bool(address.is_for_me(m))))
+                self.py_view = view
+            except Exception as e:
+                self.py_view = {'error': repr(e)}
+
+    def do_bindfail(self, op):
+        self.do_bind(op, fail=True)
 
     def do_send(self, op):
         try:
@@ -187,7 +219,8 @@ class SockRunner:
         self.line('sock close', res)
 
     def kernel_state(self):
-        return {'opts': list(self.k.k_opts), 'fc': list(self.k.k_fc), 'll': list(self.k.k_ll), 'txstmin': self.k.k_txstmin, 'bound': self.k.k_bound}
+        return {'opts': list(self.k.k_opts), 'fc': list(self.k.k_fc), 'll': list(self.k.k_ll), 'txstmin': self.k.k_txstmin, 'bound': self.k.k_bound,
+                'py_view': getattr(self, 'py_view', None)}
 
     def run(self, ops):
         states = []
